@@ -454,10 +454,10 @@ module Coq_Pos =
 
   (** val iter_op : ('a1 -> 'a1 -> 'a1) -> positive -> 'a1 -> 'a1 **)
 
-  let rec iter_op op p a =
+  let rec iter_op op0 p a =
     match p with
-    | XI p0 -> op a (iter_op op p0 (op a a))
-    | XO p0 -> iter_op op p0 (op a a)
+    | XI p0 -> op0 a (iter_op op0 p0 (op0 a a))
+    | XO p0 -> iter_op op0 p0 (op0 a a)
     | XH -> a
 
   (** val to_nat : positive -> nat **)
@@ -4366,6 +4366,284 @@ let run_build_item c bufs =
     (String ((Ascii (true, true, false, false, true, true, true, false)),
     EmptyString)))))))))))), (OL
     (map (fun b -> obs_write (item_write_into c (mk_buf b))) bufs))) :: []
+
+type op =
+| OPad of n
+| ONtp of n
+| ORtp of n
+| OPc of n
+| OOc of n
+| ORb of rb_cfg
+| OSubtype of n
+| OData of bytes
+| OSrc of n
+| OReason of bytes
+| OReasonOwned of bytes
+| OChunk of chunk_cfg
+| OCount of n
+| OSender of n
+| OMedia of n
+
+type item_op =
+| IPrefix of bytes
+| IIntoOwned
+
+type item_hist = { ih_type : n; ih_value : bytes; ih_ops : item_op list;
+                   ih_add_owned : bool }
+
+type chunk_hist = { chh_ssrc : n; chh_items : item_hist list }
+
+(** val item_apply : item_cfg -> item_op -> item_cfg **)
+
+let item_apply c = function
+| IPrefix p ->
+  { it_c_type = c.it_c_type; it_c_prefix = p; it_c_value = c.it_c_value }
+| IIntoOwned ->
+  { it_c_type = c.it_c_type; it_c_prefix = c.it_c_prefix; it_c_value =
+    c.it_c_value }
+
+(** val item_of_hist : item_hist -> item_cfg **)
+
+let item_of_hist h =
+  let c =
+    fold_left item_apply h.ih_ops { it_c_type = h.ih_type; it_c_prefix = [];
+      it_c_value = h.ih_value }
+  in
+  if h.ih_add_owned then item_apply c IIntoOwned else c
+
+(** val chunk_of_hist : chunk_hist -> chunk_cfg **)
+
+let chunk_of_hist h =
+  { ch_c_ssrc = h.chh_ssrc; ch_c_items = (map item_of_hist h.chh_items) }
+
+type rpsi_op =
+| RPt of n
+| RData of bytes * n
+| RDataOwned of bytes * n
+
+type rpsi_st = { rp_pt : n; rp_bits : bytes; rp_ov : n }
+
+(** val rpsi_apply : rpsi_st -> rpsi_op -> rpsi_st **)
+
+let rpsi_apply s = function
+| RPt v -> { rp_pt = v; rp_bits = s.rp_bits; rp_ov = s.rp_ov }
+| RData (d, ov) -> { rp_pt = s.rp_pt; rp_bits = d; rp_ov = ov }
+| RDataOwned (d, ov) -> { rp_pt = s.rp_pt; rp_bits = d; rp_ov = ov }
+
+type fci_hist =
+| FHNack of n list
+| FHFir of (n * n) list
+| FHSli of ((n * n) * n) list
+| FHRpsi of rpsi_op list
+| FHPli
+
+(** val fci_of_hist : fci_hist -> fci_cfg **)
+
+let fci_of_hist = function
+| FHNack a -> FNack a
+| FHFir a -> FFir a
+| FHSli a -> FSli a
+| FHRpsi ops ->
+  let s = fold_left rpsi_apply ops { rp_pt = N0; rp_bits = []; rp_ov = N0 } in
+  FRpsi (s.rp_pt, s.rp_bits, s.rp_ov)
+| FHPli -> FPli
+
+(** val apply_op : member -> op -> member **)
+
+let apply_op m o =
+  match m with
+  | MSr c ->
+    (match o with
+     | OPad p ->
+       MSr { sr_c_ssrc = c.sr_c_ssrc; sr_c_padding = p; sr_c_ntp =
+         c.sr_c_ntp; sr_c_rtp = c.sr_c_rtp; sr_c_pc = c.sr_c_pc; sr_c_oc =
+         c.sr_c_oc; sr_c_blocks = c.sr_c_blocks }
+     | ONtp v ->
+       MSr { sr_c_ssrc = c.sr_c_ssrc; sr_c_padding = c.sr_c_padding;
+         sr_c_ntp = v; sr_c_rtp = c.sr_c_rtp; sr_c_pc = c.sr_c_pc; sr_c_oc =
+         c.sr_c_oc; sr_c_blocks = c.sr_c_blocks }
+     | ORtp v ->
+       MSr { sr_c_ssrc = c.sr_c_ssrc; sr_c_padding = c.sr_c_padding;
+         sr_c_ntp = c.sr_c_ntp; sr_c_rtp = v; sr_c_pc = c.sr_c_pc; sr_c_oc =
+         c.sr_c_oc; sr_c_blocks = c.sr_c_blocks }
+     | OPc v ->
+       MSr { sr_c_ssrc = c.sr_c_ssrc; sr_c_padding = c.sr_c_padding;
+         sr_c_ntp = c.sr_c_ntp; sr_c_rtp = c.sr_c_rtp; sr_c_pc = v; sr_c_oc =
+         c.sr_c_oc; sr_c_blocks = c.sr_c_blocks }
+     | OOc v ->
+       MSr { sr_c_ssrc = c.sr_c_ssrc; sr_c_padding = c.sr_c_padding;
+         sr_c_ntp = c.sr_c_ntp; sr_c_rtp = c.sr_c_rtp; sr_c_pc = c.sr_c_pc;
+         sr_c_oc = v; sr_c_blocks = c.sr_c_blocks }
+     | ORb b ->
+       MSr { sr_c_ssrc = c.sr_c_ssrc; sr_c_padding = c.sr_c_padding;
+         sr_c_ntp = c.sr_c_ntp; sr_c_rtp = c.sr_c_rtp; sr_c_pc = c.sr_c_pc;
+         sr_c_oc = c.sr_c_oc; sr_c_blocks = (app c.sr_c_blocks (b :: [])) }
+     | _ -> m)
+  | MRr c ->
+    (match o with
+     | OPad p ->
+       MRr { rr_c_ssrc = c.rr_c_ssrc; rr_c_padding = p; rr_c_blocks =
+         c.rr_c_blocks }
+     | ORb b ->
+       MRr { rr_c_ssrc = c.rr_c_ssrc; rr_c_padding = c.rr_c_padding;
+         rr_c_blocks = (app c.rr_c_blocks (b :: [])) }
+     | _ -> m)
+  | MApp c ->
+    (match o with
+     | OPad p ->
+       MApp { app_c_ssrc = c.app_c_ssrc; app_c_padding = p; app_c_subtype =
+         c.app_c_subtype; app_c_name = c.app_c_name; app_c_data =
+         c.app_c_data }
+     | OSubtype v ->
+       MApp { app_c_ssrc = c.app_c_ssrc; app_c_padding = c.app_c_padding;
+         app_c_subtype = v; app_c_name = c.app_c_name; app_c_data =
+         c.app_c_data }
+     | OData d ->
+       MApp { app_c_ssrc = c.app_c_ssrc; app_c_padding = c.app_c_padding;
+         app_c_subtype = c.app_c_subtype; app_c_name = c.app_c_name;
+         app_c_data = d }
+     | _ -> m)
+  | MBye c ->
+    (match o with
+     | OPad p ->
+       MBye { bye_c_padding = p; bye_c_sources = c.bye_c_sources;
+         bye_c_reason = c.bye_c_reason }
+     | OSrc s ->
+       MBye { bye_c_padding = c.bye_c_padding; bye_c_sources =
+         (app c.bye_c_sources (s :: [])); bye_c_reason = c.bye_c_reason }
+     | OReason r ->
+       MBye { bye_c_padding = c.bye_c_padding; bye_c_sources =
+         c.bye_c_sources; bye_c_reason = r }
+     | OReasonOwned r ->
+       MBye { bye_c_padding = c.bye_c_padding; bye_c_sources =
+         c.bye_c_sources; bye_c_reason = r }
+     | _ -> m)
+  | MSdes c ->
+    (match o with
+     | OPad p -> MSdes { sdes_c_padding = p; sdes_c_chunks = c.sdes_c_chunks }
+     | OChunk ch ->
+       MSdes { sdes_c_padding = c.sdes_c_padding; sdes_c_chunks =
+         (app c.sdes_c_chunks (ch :: [])) }
+     | _ -> m)
+  | MFb c ->
+    (match o with
+     | OPad p ->
+       MFb { fb_c_kind = c.fb_c_kind; fb_c_padding = p; fb_c_sender =
+         c.fb_c_sender; fb_c_media = c.fb_c_media; fb_c_fci = c.fb_c_fci }
+     | OSender v ->
+       MFb { fb_c_kind = c.fb_c_kind; fb_c_padding = c.fb_c_padding;
+         fb_c_sender = v; fb_c_media = c.fb_c_media; fb_c_fci = c.fb_c_fci }
+     | OMedia v ->
+       MFb { fb_c_kind = c.fb_c_kind; fb_c_padding = c.fb_c_padding;
+         fb_c_sender = c.fb_c_sender; fb_c_media = v; fb_c_fci = c.fb_c_fci }
+     | _ -> m)
+  | MUnk c ->
+    (match o with
+     | OPad p ->
+       MUnk { unk_c_padding = p; unk_c_type = c.unk_c_type; unk_c_count =
+         c.unk_c_count; unk_c_data = c.unk_c_data }
+     | OCount v ->
+       MUnk { unk_c_padding = c.unk_c_padding; unk_c_type = c.unk_c_type;
+         unk_c_count = v; unk_c_data = c.unk_c_data }
+     | _ -> m)
+  | _ -> m
+
+type wrap =
+| WDirect
+| WPacketBuilder
+| WCompound
+
+type hist_init =
+| HSr of n
+| HRr of n
+| HApp of n * bytes
+| HBye
+| HSdes
+| HUnk of n * bytes
+| HFb of fb_kind * fci_hist
+
+(** val init_member : hist_init -> member **)
+
+let init_member = function
+| HSr s ->
+  MSr { sr_c_ssrc = s; sr_c_padding = N0; sr_c_ntp = N0; sr_c_rtp = N0;
+    sr_c_pc = N0; sr_c_oc = N0; sr_c_blocks = [] }
+| HRr s -> MRr { rr_c_ssrc = s; rr_c_padding = N0; rr_c_blocks = [] }
+| HApp (s, n0) ->
+  MApp { app_c_ssrc = s; app_c_padding = N0; app_c_subtype = N0; app_c_name =
+    n0; app_c_data = [] }
+| HBye -> MBye { bye_c_padding = N0; bye_c_sources = []; bye_c_reason = [] }
+| HSdes -> MSdes { sdes_c_padding = N0; sdes_c_chunks = [] }
+| HUnk (t, d) ->
+  MUnk { unk_c_padding = N0; unk_c_type = t; unk_c_count = N0; unk_c_data =
+    d }
+| HFb (k, f) ->
+  MFb { fb_c_kind = k; fb_c_padding = N0; fb_c_sender = N0; fb_c_media = N0;
+    fb_c_fci = (fci_of_hist f) }
+
+type hist = { h_init : hist_init; h_ops : op list; h_wrap : wrap }
+
+(** val member_of_hist : hist -> member **)
+
+let member_of_hist h =
+  let m = fold_left apply_op h.h_ops (init_member h.h_init) in
+  (match h.h_wrap with
+   | WCompound -> MCompound (m :: [])
+   | _ -> m)
+
+(** val run_hist : hist -> kv list **)
+
+let run_hist h =
+  let m = member_of_hist h in
+  ((String ((Ascii (true, true, false, false, true, true, true, false)),
+  (String ((Ascii (true, false, false, true, false, true, true, false)),
+  (String ((Ascii (false, true, false, true, true, true, true, false)),
+  (String ((Ascii (true, false, true, false, false, true, true, false)),
+  EmptyString)))))))),
+  (obs_wres (fun x -> OI x) (m_calc m))) :: (match m_calc m with
+                                             | Ok n0 ->
+                                               ((String ((Ascii (true, true,
+                                                 true, false, true, true,
+                                                 true, false)), (String
+                                                 ((Ascii (false, true, false,
+                                                 false, true, true, true,
+                                                 false)), (String ((Ascii
+                                                 (true, false, false, true,
+                                                 false, true, true, false)),
+                                                 (String ((Ascii (false,
+                                                 false, true, false, true,
+                                                 true, true, false)), (String
+                                                 ((Ascii (true, false, true,
+                                                 false, false, true, true,
+                                                 false)), (String ((Ascii
+                                                 (true, true, false, false,
+                                                 true, true, true, false)),
+                                                 EmptyString)))))))))))), (OL
+                                                 ((obs_write
+                                                    (m_write_into m
+                                                      (repeat (Npos (XO (XI
+                                                        (XO (XI (XO (XI (XO
+                                                        XH)))))))) n0))) :: []))) :: []
+                                             | _ ->
+                                               ((String ((Ascii (true, true,
+                                                 true, false, true, true,
+                                                 true, false)), (String
+                                                 ((Ascii (false, true, false,
+                                                 false, true, true, true,
+                                                 false)), (String ((Ascii
+                                                 (true, false, false, true,
+                                                 false, true, true, false)),
+                                                 (String ((Ascii (false,
+                                                 false, true, false, true,
+                                                 true, true, false)), (String
+                                                 ((Ascii (true, false, true,
+                                                 false, false, true, true,
+                                                 false)), (String ((Ascii
+                                                 (true, true, false, false,
+                                                 true, true, true, false)),
+                                                 EmptyString)))))))))))), (OL
+                                                 ((obs_write
+                                                    (m_write_into m [])) :: []))) :: [])
 
 (** val rfc_header : n -> n -> n -> nat -> bytes **)
 
